@@ -49,7 +49,7 @@ func (p *parser) expr() *Node {
 		if p.bad {
 			return nil
 		}
-		left = &Node{Kind: "bin", Op: ",", Kids: []*Node{left, right}}
+		left = &Node{Kind: "bin", Op: ",", Kids: []*Node{left, right}, F: left.F, L: right.L}
 	}
 	return left
 }
@@ -66,7 +66,7 @@ func (p *parser) assign() *Node {
 		if p.bad {
 			return nil
 		}
-		return &Node{Kind: "bin", Op: "=", Kids: []*Node{left, right}}
+		return &Node{Kind: "bin", Op: "=", Kids: []*Node{left, right}, F: left.F, L: right.L}
 	case "?":
 		p.next()
 		a := p.assign()
@@ -81,7 +81,7 @@ func (p *parser) assign() *Node {
 		if p.bad {
 			return nil
 		}
-		return &Node{Kind: "cond", Kids: []*Node{left, a, b}}
+		return &Node{Kind: "cond", Kids: []*Node{left, a, b}, F: left.F, L: b.L}
 	}
 	return left
 }
@@ -102,7 +102,7 @@ func (p *parser) ladder(level int) *Node {
 		if p.bad {
 			return nil
 		}
-		left = &Node{Kind: "bin", Op: op, Kids: []*Node{left, right}}
+		left = &Node{Kind: "bin", Op: op, Kids: []*Node{left, right}, F: left.F, L: right.L}
 	}
 	if p.bad {
 		return nil
@@ -113,19 +113,21 @@ func (p *parser) ladder(level int) *Node {
 func (p *parser) unary() *Node {
 	switch k := p.cur().Kind; k {
 	case "+", "-", "!", "!!", "~":
+		at := p.i
 		p.next()
 		x := p.unary()
 		if p.bad {
 			return nil
 		}
-		return &Node{Kind: "pre", Op: k, Kids: []*Node{x}}
+		return &Node{Kind: "pre", Op: k, Kids: []*Node{x}, F: at, L: x.L}
 	case "kw:typeof":
+		at := p.i
 		p.next()
 		x := p.unary()
 		if p.bad {
 			return nil
 		}
-		return &Node{Kind: "typeof", Kids: []*Node{x}}
+		return &Node{Kind: "typeof", Kids: []*Node{x}, F: at, L: x.L}
 	}
 	return p.postfix()
 }
@@ -145,13 +147,13 @@ func (p *parser) postfix() *Node {
 			if !isName(nm.Kind) {
 				return p.fail()
 			}
+			x = &Node{Kind: "sel", Val: nm.Value, Assert: t.Kind == "!.", Kids: []*Node{x}, F: x.F, L: p.i}
 			p.next()
-			x = &Node{Kind: "sel", Val: nm.Value, Assert: t.Kind == "!.", Kids: []*Node{x}}
 			continue
 		}
 		if t.Kind == "(" {
 			p.next()
-			call := &Node{Kind: "call", Kids: []*Node{x}}
+			call := &Node{Kind: "call", Kids: []*Node{x}, F: x.F}
 			if p.cur().Kind != ")" && p.cur().Kind != "..." {
 				for {
 					a := p.assign()
@@ -173,6 +175,7 @@ func (p *parser) postfix() *Node {
 			if p.cur().Kind != ")" {
 				return p.fail()
 			}
+			call.L = p.i
 			p.next()
 			x = call
 			continue
@@ -190,17 +193,18 @@ func (p *parser) primary() *Node {
 	switch t.Kind {
 	case "num":
 		p.next()
-		return &Node{Kind: "num", Val: t.Value}
+		return &Node{Kind: "num", Val: t.Value, F: p.i - 1, L: p.i - 1}
 	case "str":
 		p.next()
-		return &Node{Kind: "str", Val: t.Value}
+		return &Node{Kind: "str", Val: t.Value, F: p.i - 1, L: p.i - 1}
 	case "kw:null", "kw:true", "kw:false", "kw:this", "kw:ctx":
 		p.next()
-		return &Node{Kind: "kw", Op: t.Kind[3:]}
+		return &Node{Kind: "kw", Op: t.Kind[3:], F: p.i - 1, L: p.i - 1}
 	case "id":
 		p.next()
-		return &Node{Kind: "id", Val: t.Value}
+		return &Node{Kind: "id", Val: t.Value, F: p.i - 1, L: p.i - 1}
 	case "(":
+		open := p.i
 		p.next()
 		x := p.expr()
 		if p.bad {
@@ -210,10 +214,10 @@ func (p *parser) primary() *Node {
 			return p.fail()
 		}
 		p.next()
-		return &Node{Kind: "paren", Kids: []*Node{x}}
+		return &Node{Kind: "paren", Kids: []*Node{x}, F: open, L: p.i - 1}
 	case "[":
+		arr := &Node{Kind: "arr", F: p.i}
 		p.next()
-		arr := &Node{Kind: "arr"}
 		if p.cur().Kind != "]" {
 			for {
 				a := p.assign()
@@ -231,6 +235,7 @@ func (p *parser) primary() *Node {
 		if p.cur().Kind != "]" {
 			return p.fail()
 		}
+		arr.L = p.i
 		p.next()
 		return arr
 	}
